@@ -1,6 +1,8 @@
 package main
 
 import (
+	"go/ast"
+	"go/constant"
 	"go/types"
 	"strconv"
 	"regexp"
@@ -38,8 +40,10 @@ func runC07(e *Engine, r *Report, tier string) {
 	r.Rule("R2", "slashing loops agree (argument, start-height skip, confirm-map test, cursor)", 3, "callers of the slash primitive")
 	r.Rule("R3", "gov EndBlocker error returns classified", 1, "")
 	r.Rule("R5", "a decimal parsed with its error discarded in block processing comes from a field its type's validator always parses", 4, "NewDecFromStr calls with unused error in the closure")
+	r.Rule("R6", "every module account that is minted to / burned from has the permission in the app's module-account table (bank panics otherwise)", 10, "mint/burn call sites of fx-core plus the dependency modules' own needs")
 	r.Rule("R4", "a queue entry is removed under the field values it was filed under (no rewrite of those fields can reach the removal)", 1, "queue removals in end-block callbacks keyed by record fields")
 
+	e.c07ModuleAccountPerms(r)
 	closure := e.blockClosure()
 	var fns []*ssa.Function
 	for f := range closure {
@@ -789,4 +793,209 @@ func fixedPrecisionDecimalParse(p *ssa.Panic) (why string, ok bool) {
 		return fmt.Sprintf("input rendered with %s: at most %d fractional digits, the parse cannot fail for a finite value", f, n), true
 	}
 	return "", false
+}
+
+
+// c07ModuleAccountPerms (R6): bank.MintCoins / BurnCoins panic when the module account lacks the permission. The permissions
+// live in one map literal in the app package; what they must contain follows from who mints and burns: fx-core's own call
+// sites (module name constant, or a keeper's module-name field traced to the constants its constructor is called with) and
+// the needs of the dependency modules' own code (trusted table: gov burns deposits in its end blocker, mint mints, the
+// staking pools burn on slashing, ibc transfer and the EVM mint and burn).
+func (e *Engine) c07ModuleAccountPerms(r *Report) {
+	need := map[string]map[string]string{} // module -> perm -> why
+	add := func(mod, perm, why string) {
+		if need[mod] == nil {
+			need[mod] = map[string]string{}
+		}
+		if _, ok := need[mod][perm]; !ok {
+			need[mod][perm] = why
+		}
+	}
+	add("gov", "burner", "cosmos-sdk x/gov burns deposits of vetoed / failed proposals in its end blocker")
+	add("mint", "minter", "cosmos-sdk x/mint mints the block provisions in its begin blocker")
+	add("bonded_tokens_pool", "burner", "cosmos-sdk x/staking burns slashed tokens")
+	add("not_bonded_tokens_pool", "burner", "cosmos-sdk x/staking burns slashed tokens")
+	add("bonded_tokens_pool", "staking", "cosmos-sdk x/staking delegates from the pool")
+	add("not_bonded_tokens_pool", "staking", "cosmos-sdk x/staking delegates from the pool")
+	add("transfer", "minter", "ibc-go transfer mints vouchers")
+	add("transfer", "burner", "ibc-go transfer burns vouchers")
+	add("evm", "minter", "ethermint x/evm mints on balance changes")
+	add("evm", "burner", "ethermint x/evm burns on balance changes")
+	// fx-core call sites
+	sites := 0
+	for _, fn := range e.Funcs {
+		if isAuxPkg(fnPkgPath(fn)) {
+			continue
+		}
+		allCalls(fn, func(c ssa.CallInstruction) {
+			n := callName(c)
+			if n != "MintCoins" && n != "BurnCoins" {
+				return
+			}
+			args := callArgs(c)
+			if len(args) < 4 {
+				return
+			}
+			perm := "minter"
+			if n == "BurnCoins" {
+				perm = "burner"
+			}
+			names := e.moduleNameConstants(args[2], 0)
+			if len(names) == 0 {
+				r.Undecided("R6", e.FnKey(fn)+" "+n+" module", e.InstrPos(c), "cannot resolve which module account is minted to / burned from: "+e.Describe(args[2]))
+				return
+			}
+			sites++
+			for _, m := range names {
+				add(m, perm, e.FnKey(fn)+" calls "+n)
+			}
+		})
+	}
+	// the table
+	have := map[string]map[string]bool{}
+	found := false
+	if p := e.ByPath[ModPath+"/app"]; p != nil {
+		for _, f := range p.Syntax {
+			ast.Inspect(f, func(n ast.Node) bool {
+				vs, ok := n.(*ast.ValueSpec)
+				if !ok || len(vs.Names) != 1 || len(vs.Values) != 1 {
+					return true
+				}
+				cl, ok := vs.Values[0].(*ast.CompositeLit)
+				if !ok {
+					return true
+				}
+				mt, ok := p.TypesInfo.TypeOf(cl).Underlying().(*types.Map)
+				if !ok || mt.String() != "map[string][]string" {
+					return true
+				}
+				// the permissions table is the one handed to the account keeper: recognised by its values being
+				// auth permission constants
+				tbl := map[string]map[string]bool{}
+				isPerm := false
+				for _, el := range cl.Elts {
+					kv, ok := el.(*ast.KeyValueExpr)
+					if !ok {
+						return true
+					}
+					tv := p.TypesInfo.Types[kv.Key]
+					if tv.Value == nil {
+						return true
+					}
+					key := constant.StringVal(tv.Value)
+					tbl[key] = map[string]bool{}
+					if vl, ok := kv.Value.(*ast.CompositeLit); ok {
+						for _, pe := range vl.Elts {
+							pv := p.TypesInfo.Types[pe]
+							if pv.Value != nil {
+								s := constant.StringVal(pv.Value)
+								tbl[key][s] = true
+								if s == "minter" || s == "burner" || s == "staking" {
+									isPerm = true
+								}
+							}
+						}
+					}
+				}
+				if isPerm && len(tbl) > len(have) {
+					have = tbl
+					found = true
+				}
+				return true
+			})
+		}
+	}
+	if !found {
+		r.Fail("R6", "module-account table", "", "UNRESOLVED-ANCHOR: no map[string][]string literal with auth permissions in the app package")
+		return
+	}
+	var mods []string
+	for m := range need {
+		mods = append(mods, m)
+	}
+	sort.Strings(mods)
+	for _, m := range mods {
+		var perms []string
+		for pm := range need[m] {
+			perms = append(perms, pm)
+		}
+		sort.Strings(perms)
+		for _, pm := range perms {
+			ck := "module " + m + " permission " + pm
+			if _, ok := have[m]; !ok {
+				r.Fail("R6", ck, "", "module account `"+m+"` is not in the app's module-account table but "+need[m][pm])
+				continue
+			}
+			r.Check(have[m][pm], "R6", ck, "", "granted ("+need[m][pm]+")", "module account `"+m+"` lacks the `"+pm+"` permission although "+need[m][pm]+": the bank keeper panics on that call — in an end/begin blocker this halts the chain")
+		}
+	}
+	r.Note("R6: %d fx-core mint/burn call sites resolved to module names", sites)
+}
+
+// moduleNameConstants resolves a module-name argument to string constants: the constant itself, or — for a keeper field —
+// the constants its constructor is called with.
+func (e *Engine) moduleNameConstants(v ssa.Value, depth int) []string {
+	if depth > 6 || v == nil {
+		return nil
+	}
+	v = stripConv(v)
+	if s, ok := constString(v); ok {
+		return []string{s}
+	}
+	var out []string
+	switch x := v.(type) {
+	case *ssa.Phi:
+		for _, ed := range x.Edges {
+			out = append(out, e.moduleNameConstants(ed, depth+1)...)
+		}
+	case *ssa.Parameter:
+		fn := x.Parent()
+		for _, cs := range e.CallSites(fn) {
+			if a := argFor(cs, x); a != nil {
+				out = append(out, e.moduleNameConstants(a, depth+1)...)
+			}
+		}
+	case *ssa.UnOp:
+		if fa, ok := x.X.(*ssa.FieldAddr); ok {
+			out = append(out, e.fieldConstants(fa.X.Type(), fa.Field, depth)...)
+		}
+	case *ssa.Field:
+		out = append(out, e.fieldConstants(x.X.Type(), x.Field, depth)...)
+	}
+	return dedupStrings(out)
+}
+
+func (e *Engine) fieldConstants(t types.Type, field int, depth int) []string {
+	tn := namedTypeName(t)
+	var out []string
+	for _, fn := range e.Funcs {
+		if isAuxPkg(fnPkgPath(fn)) {
+			continue
+		}
+		allInstrs(fn, func(i ssa.Instruction) {
+			st, ok := i.(*ssa.Store)
+			if !ok {
+				return
+			}
+			fa, ok := st.Addr.(*ssa.FieldAddr)
+			if !ok || fa.Field != field || namedTypeName(fa.X.Type()) != tn {
+				return
+			}
+			out = append(out, e.moduleNameConstants(st.Val, depth+1)...)
+		})
+	}
+	return out
+}
+
+func dedupStrings(in []string) []string {
+	seen := map[string]bool{}
+	var out []string
+	for _, s := range in {
+		if !seen[s] {
+			seen[s] = true
+			out = append(out, s)
+		}
+	}
+	sort.Strings(out)
+	return out
 }
